@@ -313,7 +313,7 @@ pub fn run(eng: &Engine) {
     eng.set_rule("cases = (one or two dictionaries from ZDICT_trainFromBuffer / ZDICT_finalizeDictionary, a history of 1..10 frames on ONE decoder): reference-compressed frames with dictionary A / B / none (inputs: training samples, splices of dictionary bytes at generated alignments, text longer than the window, unrelated data; window logs 10.., with and without dictionary id -> force_dict), synthesized frames using the dictionary's entropy tables / repeat offsets / content in the first block, frames naming a dictionary the decoder lacks, and synthesized frames with a match one or more bytes beyond dictionary + output; non-trivial = at least one frame with a match into dictionary content or dictionary entropy state in its first block (model walker); distinct by hash of the frames; evaluations count frames");
     eng.assume("references into the dictionary after the output passed the window are not asserted to be rejected");
     let tier = eng.tier;
-    let n = eng.tier.pick(3_000, 50_000);
+    let n = eng.tier.pick(6_000, 60_000);
     eng.run_stage("dictionary_histories", n, || case_strategy(tier), check);
     eng.selftest_count("synth_dict_frames_accepted_by_reference", SYNTH_OK.load(Ordering::Relaxed));
     eng.selftest_count("synth_dict_frames_rejected_by_reference", SYNTH_REJ.load(Ordering::Relaxed));
